@@ -831,6 +831,12 @@ class Interp:
 
     def st_Assign(self, cx, fr, st):
         v = self.eval(cx, fr, st.value)
+        if isinstance(v, (dict, list)) and not isinstance(v, SVal) and not v and len(st.targets) == 1 and isinstance(st.targets[0], ast.Name) and fr.spec is not None and fr.qual == fr.spec.qual:
+            hook = getattr(fr.spec, "empty_container", None)
+            if hook is not None:
+                hv = hook(cx, st.targets[0].id, None)  # the spec's model of this (empty) container
+                if hv is not None:
+                    v = hv
         for t in st.targets:
             self.assign(cx, fr, t, v)
 
